@@ -531,7 +531,7 @@ def whitebox(res, casbin, rows, cls, rng):
 class ConcRun:
     """SyncedEnforcer under the controlled scheduler; threads execute lists of calls"""
 
-    def __init__(self, kind, program, sub_yields=True):
+    def __init__(self, kind, program, sub_yields=True, fine=True):
         casbin = common.use_repo()
         import casbin.util.rwlock as rwmod  # noqa
 
@@ -568,7 +568,9 @@ class ConcRun:
                     setattr(e, mname, mk(mname, getattr(e, mname)))
         if sub_yields:
             for rm in list(e.rm_map.values()):
-                for mname in ("clear", "add_link", "delete_link"):
+                # has_link is asked by g() in the middle of every matcher-row evaluation: a scheduling point INSIDE a reading call
+                # (replays recorded before this point existed run without it: `fine` = False)
+                for mname in ("clear", "add_link", "delete_link") + (("has_link",) if fine else ()):
                     orig = getattr(rm, mname)
 
                     def mk2(mname, orig):
@@ -855,11 +857,11 @@ def linearizable(outcomes, results, final, pairs):
     return False
 
 
-def run_conc(kind, program, schedule, policy_rng=None, bound=None, stack=None):
+def run_conc(kind, program, schedule, policy_rng=None, bound=None, stack=None, fine=True):
     """execute `schedule`, then continue (current thread while runnable, else lowest runnable; random with policy_rng).
     With `stack`: push the preemption-bounded alternatives (CHESS style)."""
     prog = [[(n, _copy_args(a), dict(k)) for n, a, k in calls] for calls in program]
-    run = ConcRun(kind, prog)
+    run = ConcRun(kind, prog, fine=fine)
     sched = []
     try:
         cur = None
@@ -994,6 +996,7 @@ def lin_check(res, casbin, rng, n_programs, bound, n_random, max_execs, extra_pr
                     "setup": kind,
                     "program": _prog_show(p),
                     "schedule": v["schedule"],
+                    "fine": True,
                     "expected": "results and final state of some sequential order",
                     "observed": v["observed"],
                 }
@@ -1056,7 +1059,7 @@ def replay(obj):
     if chk == "lin":
         program = [[(c[0], c[1], c[2]) for c in calls] for calls in obj["program"]]
         try:
-            r = run_conc(obj["setup"], program, obj["schedule"])
+            r = run_conc(obj["setup"], program, obj["schedule"], fine=obj.get("fine", False))
         except common.Infra as e:
             print("  the recorded schedule is no longer possible on this tree:", e)
             return False
